@@ -82,7 +82,7 @@ func genCase(t *rapid.T) Case {
 	touched := map[int]bool{}
 	c := Case{}
 	for i := 0; i < n; i++ {
-		k := rapid.SampledFrom([]string{"append", "append", "append", "append", "get", "since", "since", "last", "assets", "touch", "overlap", "copy", "peek"}).Draw(t, "k")
+		k := rapid.SampledFrom([]string{"append", "append", "append", "append", "get", "since", "since", "last", "assets", "touch", "overlap", "copy", "peek", "nospace"}).Draw(t, "k")
 		op := Op{K: k, Name: rapid.IntRange(0, 3).Draw(t, "name")}
 		switch k {
 		case "copy":
@@ -108,6 +108,16 @@ func genCase(t *rapid.T) Case {
 		case "touch":
 			op.Name = rapid.IntRange(0, 2).Draw(t, "tname")
 			touched[op.Name] = true
+		case "nospace":
+			// an Append that cannot be written (the file sits on a full device) must say so
+			op.Name = 3
+			for j, m := 0, rapid.IntRange(1, 4).Draw(t, "nbatch"); j < m; j++ {
+				sn := Snap{Day: 100 + j}
+				for f := range sn.F {
+					sn.F[f] = genFloat(t)
+				}
+				op.Batch = append(op.Batch, sn)
+			}
 		case "append", "overlap":
 			op.Name = rapid.IntRange(0, 2).Draw(t, "aname") // NEVER is never appended
 			m := rapid.IntRange(0, 5).Draw(t, "batch")
@@ -172,6 +182,10 @@ type repoMaker struct {
 	// offers (in-memory: guarded by its mutex; SQL: one INSERT per snapshot). The file-system
 	// repository makes no such promise for one file and is only driven sequentially.
 	concurrent bool
+	// full makes the store of the name unwritable the way a full disk does (file-system: the file
+	// is a link to /dev/full, which opens and truncates fine and fails every write with ENOSPC);
+	// it returns the undo.
+	full func(name string) (func(), error)
 }
 
 func sameSnap(a *asset.Snapshot, b Snap) bool {
@@ -491,6 +505,26 @@ func run(mk repoMaker, c Case) engine.Outcome {
 					o.Add("reads_left_open_across_other_calls", 1)
 				case "since":
 					lastBound, lastSec, lastZone = op.Bound, op.Sec, op.Zone
+				case "nospace":
+					if mk.full == nil {
+						break
+					}
+					undo, err := mk.full("FULL")
+					if err != nil {
+						o.Failf("harness: %v", err)
+						return o
+					}
+					batch := make([]*asset.Snapshot, len(op.Batch))
+					for j, sn := range op.Batch {
+						batch[j] = sn.snapshot()
+					}
+					err = repo.Append("FULL", helper.SliceToChan(batch))
+					undo()
+					if err == nil {
+						o.Failf("%s step %d: Append of %d snapshots to an asset whose file is on a full device (every write fails with ENOSPC) returned no error: the snapshots are lost silently", mk.name, i, len(batch))
+						return o
+					}
+					o.Add("appends_to_a_full_device_reported", 1)
 				case "touch":
 					// only for an asset that holds nothing yet: an empty file appears out of band
 					if mk.touch != nil && len(model[nm]) == 0 {
@@ -529,7 +563,11 @@ func makers() []repoMaker {
 				}
 				dir = d
 				return asset.NewFileSystemRepository(d), func() { _ = os.RemoveAll(d) }, nil
-			}, touch: func(name string) error { return os.WriteFile(filepath.Join(dir, name+".csv"), nil, 0o600) }}
+			}, touch: func(name string) error { return os.WriteFile(filepath.Join(dir, name+".csv"), nil, 0o600) },
+				full: func(name string) (func(), error) {
+					p := filepath.Join(dir, name+".csv")
+					return func() { _ = os.Remove(p) }, os.Symlink("/dev/full", p)
+				}}
 		}(),
 		{name: "sql", concurrent: true, open: func() (asset.Repository, func(), error) {
 			sqlSeq++
